@@ -64,10 +64,15 @@ theorem sim_addAF (o : Ops V) (alg : Algo V) (name : String) :
   unfold addAF
   sim_auto
 
+theorem sim_unaryTemp (o : Ops V) (k : UOp) (inp : String) (m : Nat) :
+    Sim n (fun _ => True) (unaryTemp (σ := St V) o k inp m) (unaryTemp (σ := ATab V) o k inp m) := by
+  cases k <;> (unfold unaryTemp; sim_auto)
+macro_rules | `(tactic| sim_leaf) => `(tactic| exact sim_unaryTemp _ _ _ _)
+
 theorem sim_unaryVoid (o : Ops V) (k : UOp) (inp out : String) :
     Sim n (fun _ => True) (unaryVoid (σ := St V) o k inp out) (unaryVoid (σ := ATab V) o k inp out) := by
   unfold unaryVoid
-  cases k <;> sim_auto
+  sim_auto
 
 theorem sim_binaryVoid (o : Ops V) (k : BOp) (in1 in2 out : String) :
     Sim n (fun _ => True) (binaryVoid (σ := St V) o k in1 in2 out) (binaryVoid (σ := ATab V) o k in1 in2 out) := by
